@@ -616,7 +616,7 @@ func RunC02(e *Env) (int, error) {
 	pool := libsim.NewPool(e.Tree.Worker("inst"), e.Workers, workerAS)
 	defer pool.Close()
 	world := filepath.Join(e.Tree.Root, "c02")
-	n := e.N(60000, 1500000)
+	n := e.N(60000, 600000)
 	maxLayers := e.Pick(3, 5)
 
 	exec := func(c *C02Case, run int64, tag string) (c02Obs, *wire.Result, error) {
